@@ -1,3 +1,4 @@
+import DryocVerif.Proofs.GenKx
 import DryocVerif.Model.Curve
 import DryocVerif.Model.CurveInst
 import DryocVerif.Spec.X25519
@@ -7,6 +8,8 @@ import DryocVerif.Proofs.CurveExtra
 import DryocVerif.Proofs.CurveOrder8
 import DryocVerif.Proofs.GenCurve
 import DryocVerif.Proofs.CurveHonest
+import DryocVerif.Proofs.CurveObject
+import DryocVerif.Model.ObjectView
 /-
 C05 — Curve25519 scalar multiplication and the key exchange built on it.
 
@@ -25,7 +28,8 @@ What is proved about dryoc's own code (`Model.Curve`, mirroring
 * the repaired defect E1 (scalar reduced modulo the group order `L` before the ladder):
   the reduction changes *every* clamped scalar (`clamped_scalar_ge_L`) and the result
   differs from X25519 outside the prime-order subgroup (concrete witnesses);
-* `crypto_kx_*_session_keys` refuse exactly the all-zero shared secret, never panic, and
+* `crypto_kx_*_session_keys` refuse exactly the all-zero shared secret, never panic (typed `&[u8; 32]`
+  arguments: the model has no panic branch), and
   the two sides derive mirrored keys whenever the two Diffie–Hellman results agree;
 * the ladder sees the u-coordinate only modulo p and ignores bit 255 (theorems, for every scalar
   and every encoding: `ladder_mod_p`, `scalarmult_noncanonical`, `scalarmult_high_bit`);
@@ -39,8 +43,32 @@ What is proved about dryoc's own code (`Model.Curve`, mirroring
   all-zero and `kx_mirror`'s hypothesis `hnz` is discharged (`kx_mirror_honest`; with `LadderCommutes`
   also `hdh`: `kx_mirror_honest'`).
 
-NOT proved, and made explicit as named hypotheses (`BaseReduceOK`, `BaseEdwardsOK`, and for honest key
-pairs `HonestNonzero`, `LadderCommutes`): the model's
+* the OBJECT API (kx.rs `Session::new_client` / `new_server` and their `_with_defaults` forms, keypair.rs
+  `KeyPair::kx_new_client_session` / `kx_new_server_session` / `precalculate`, precalc.rs
+  `PrecalcSecretKey::precalculate`) takes `ByteArray<32>` containers.  With containers whose type carries the
+  length it IS the classic function (`sessionNewClient_exact`, …).  With `Vec<u8>` / `&[u8]` / `[u8]`
+  (`as_array` asserts `len ≥ 32`, types.rs) a container of fewer than 32 bytes PANICS and a longer one is viewed
+  through its first 32 bytes: `sessionNewClient_cases`, `sessionNewServer_cases`, `objPrecalculate_cases`
+  (section 5').  "never panic" above (`kx_never_panics`) is about the TYPED model only.
+
+CURVE FACTS THAT REMAIN ASSUMED (named hypotheses, no general proof; each evaluated in the kernel on instances).
+(1) `EdwardsLadderOK`: for every `k < 2^255`, dalek's `to_montgomery` of the Edwards multiple `[k mod L]B` is the
+X25519 ladder of `k` on u = 9 — i.e. `[L]B = O` and the birational map commuting with scalar multiplication, on
+the base point.  It implies `BaseEdwardsOK` (the Rust `crypto_scalarmult_curve25519_base` = the model's ladder
+shape; `baseEdwardsOK_of_edwardsLadder`) and `BaseReduceOK` (`baseReduceOK_of_edwardsLadder`), and with the
+PROVED facts about the Edwards curve (closure of the curve equation under the addition law, completeness, a
+compressed point decompresses: `Proofs/CurveEdwards.lean`) also C13's `MapCommutes` (`C13.mapCommutes_of_base`),
+so these three are no longer independent assumptions.  Witnesses: k = 1, L, L + 1 (`EdwardsLadderOK`), the secret
+keys 0³², ff³² (`BaseEdwardsOK`), ff³² (`BaseReduceOK`).
+(2) `HonestNonzero`: the ladder of the ladder on u = 9 is not 0 for scalars that are not multiples of `L` (order of
+the base point; x = 0 only at the point of order 2).  Witness: the key pairs 0³², 8 ‖ 0³¹; `ladder L 9 = 0` shows
+the restriction is needed.
+(3) `LadderCommutes`: `ladder a (ladder b 9) = ladder b (ladder a 9)`.  Witness: the same two keys.
+Nothing else about the curve is assumed in this file; (2) and (3) are used only by `kx_mirror_honest*` /
+`honest_shared_secret_nonzero` / `kx_honest_not_refused`, (1) only to transfer the `scalarmultBase` theorems
+to the Rust base-point function.
+
+Background for (1): the model's
 `scalarmultBase` is the Montgomery ladder on the clamped scalar, whereas the Rust
 `crypto_scalarmult_curve25519_base` multiplies the Edwards base-point table by the clamped scalar
 reduced mod L and maps the result to Montgomery form.  That the two agree is a fact about the curve
@@ -237,11 +265,105 @@ theorem kxServer_ok (P : Prims) (spk ssk cpk : Bytes) (h : scalarmult P ssk cpk 
       .ok ((kx P cpk spk (scalarmult P ssk cpk)).2, (kx P cpk spk (scalarmult P ssk cpk)).1) := by
   simp [kxServer, h]
 
+/-- Corollary of totalisation: the definitions `kxClient` / `kxServer` have no panic branch in reach (they model
+`crypto_kx_*_session_keys`, whose arguments are `&[u8; 32]`: the TYPED model).  It says nothing about the object
+API on `Vec<u8>` containers; the code-shaped statements that carry content there are `sessionNewClient_cases` /
+`sessionNewServer_cases` below (panic iff one of the three containers is shorter than 32 bytes). -/
 theorem kx_never_panics (P : Prims) (a b c : Bytes) :
     kxClient P a b c ≠ .panic ∧ kxServer P a b c ≠ .panic := by
   constructor
   · by_cases h : scalarmult P b c = zeros 32 <;> simp [kxClient, h]
   · by_cases h : scalarmult P b c = zeros 32 <;> simp [kxServer, h]
+
+/-! ### 5': the object API on containers whose length is not in their type
+
+`Session::new_client(&client_keypair, &server_public_key)` (kx.rs; also `new_client_with_defaults` and
+`KeyPair::kx_new_client_session`, which only forward) calls `crypto_kx_client_session_keys` on
+`client_keypair.public_key.as_array()`, `client_keypair.secret_key.as_array()`, `server_public_key.as_array()`.
+For `Vec<u8>`, `&[u8]`, `[u8]` (`impl ByteArray<LENGTH>`, types.rs) `as_array` is
+`assert!(self.len() >= LENGTH)` followed by a view of the first `LENGTH` bytes. -/
+
+open Model.ObjectView in
+/-- `Session::new_client` / `new_client_with_defaults` / `KeyPair::kx_new_client_session`: PANICS iff one of the
+three containers holds fewer than 32 bytes (e.g. a 31-byte `Vec` peer key); otherwise it is
+`crypto_kx_client_session_keys` on the first 32 bytes of each (a 33-byte `Vec` peer key is truncated) -/
+theorem sessionNewClient_cases (P : Prims) (cpk csk spk : Bytes) :
+    (sessionNewClient P cpk csk spk = .panic ↔ cpk.length < 32 ∨ csk.length < 32 ∨ spk.length < 32) ∧
+    (32 ≤ cpk.length → 32 ≤ csk.length → 32 ≤ spk.length →
+      sessionNewClient P cpk csk spk = kxClient P (cpk.take 32) (csk.take 32) (spk.take 32)) :=
+  Proofs.CurveObject.sessionNewClient_cases P cpk csk spk
+
+open Model.ObjectView in
+/-- exact lengths — what `[u8; 32]`, `StackByteArray<32>`, `HeapByteArray<32>`, `Locked<…>` guarantee by type:
+the object function is the typed model -/
+theorem sessionNewClient_exact (P : Prims) (cpk csk spk : Bytes)
+    (h1 : cpk.length = 32) (h2 : csk.length = 32) (h3 : spk.length = 32) :
+    sessionNewClient P cpk csk spk = kxClient P cpk csk spk :=
+  Proofs.CurveObject.sessionNewClient_exact P cpk csk spk h1 h2 h3
+
+open Model.ObjectView in
+/-- `Err` exactly when all three containers are long enough and the shared secret of the prefixes is all-zero -/
+theorem sessionNewClient_err_iff (P : Prims) (cpk csk spk : Bytes) :
+    sessionNewClient P cpk csk spk = .err ↔
+      32 ≤ cpk.length ∧ 32 ≤ csk.length ∧ 32 ≤ spk.length ∧
+        scalarmult P (csk.take 32) (spk.take 32) = zeros 32 :=
+  Proofs.CurveObject.sessionNewClient_err_iff P cpk csk spk
+
+open Model.ObjectView in
+/-- `Session::new_server` / `new_server_with_defaults` / `KeyPair::kx_new_server_session` -/
+theorem sessionNewServer_cases (P : Prims) (spk ssk cpk : Bytes) :
+    (sessionNewServer P spk ssk cpk = .panic ↔ spk.length < 32 ∨ ssk.length < 32 ∨ cpk.length < 32) ∧
+    (32 ≤ spk.length → 32 ≤ ssk.length → 32 ≤ cpk.length →
+      sessionNewServer P spk ssk cpk = kxServer P (spk.take 32) (ssk.take 32) (cpk.take 32)) :=
+  Proofs.CurveObject.sessionNewServer_cases P spk ssk cpk
+
+open Model.ObjectView in
+theorem sessionNewServer_exact (P : Prims) (spk ssk cpk : Bytes)
+    (h1 : spk.length = 32) (h2 : ssk.length = 32) (h3 : cpk.length = 32) :
+    sessionNewServer P spk ssk cpk = kxServer P spk ssk cpk :=
+  Proofs.CurveObject.sessionNewServer_exact P spk ssk cpk h1 h2 h3
+
+open Model.ObjectView in
+theorem sessionNewServer_err_iff (P : Prims) (spk ssk cpk : Bytes) :
+    sessionNewServer P spk ssk cpk = .err ↔
+      32 ≤ spk.length ∧ 32 ≤ ssk.length ∧ 32 ≤ cpk.length ∧
+        scalarmult P (ssk.take 32) (cpk.take 32) = zeros 32 :=
+  Proofs.CurveObject.sessionNewServer_err_iff P spk ssk cpk
+
+open Model.ObjectView in
+/-- `PrecalcSecretKey::precalculate(third_party_public_key, secret_key)` / `KeyPair::precalculate` (and, up to
+their allocation `Result`, `precalculate_locked` / `precalculate_readonly_locked`): PANICS iff one of the two
+containers holds fewer than 32 bytes; otherwise `crypto_box_beforenm` of the two 32-byte prefixes; never `Err` -/
+theorem objPrecalculate_cases (P : Prims) (pk sk : Bytes) :
+    (objPrecalculate P pk sk = .panic ↔ pk.length < 32 ∨ sk.length < 32) ∧
+    (32 ≤ pk.length → 32 ≤ sk.length →
+      objPrecalculate P pk sk = .ok (beforenm P (pk.take 32) (sk.take 32))) ∧
+    objPrecalculate P pk sk ≠ .err :=
+  Proofs.CurveObject.objPrecalculate_cases P pk sk
+
+open Model.ObjectView in
+theorem objPrecalculate_exact (P : Prims) (pk sk : Bytes) (h1 : pk.length = 32) (h2 : sk.length = 32) :
+    objPrecalculate P pk sk = .ok (beforenm P pk sk) :=
+  Proofs.CurveObject.objPrecalculate_exact P pk sk h1 h2
+
+open Model.ObjectView in
+/-- witnesses (abstract primitives, nothing evaluated but the lengths): a 31-byte `Vec` peer key panics on both
+sides and in `precalculate`; a 33-byte one is the same as its 32-byte prefix -/
+example (P : Prims) (pk sk : Bytes) (h1 : pk.length = 32) (h2 : sk.length = 32) (b : UInt8) :
+    sessionNewClient P pk sk (zeros 31) = .panic ∧
+    sessionNewServer P pk sk (zeros 31) = .panic ∧
+    objPrecalculate P (zeros 31) sk = .panic ∧
+    sessionNewClient P pk sk (zeros 32 ++ [b]) = kxClient P pk sk (zeros 32) ∧
+    objPrecalculate P (zeros 32 ++ [b]) sk = .ok (beforenm P (zeros 32) sk) := by
+  refine ⟨(sessionNewClient_cases P pk sk _).1.2 (by simp [zeros]),
+    (sessionNewServer_cases P pk sk _).1.2 (by simp [zeros]),
+    (objPrecalculate_cases P _ sk).1.2 (by simp [zeros]), ?_, ?_⟩
+  · rw [(sessionNewClient_cases P pk sk _).2 (by omega) (by omega) (by simp [zeros]),
+      List.take_of_length_le (by omega), List.take_of_length_le (by omega)]
+    rfl
+  · have e : sk.take 32 = sk := List.take_of_length_le (by omega)
+    rw [(objPrecalculate_cases P _ sk).2.1 (by simp [zeros]) (by omega), e]
+    rfl
 
 /-- EXAMPLE (one secret key, kernel evaluation): the peer key u = 1 (order 4) is refused by both
 sides for the secret key 0³².  The statement for ALL secret keys is `kx_refuses_low_order` below. -/
@@ -525,7 +647,9 @@ def scalarmultBaseEdwards (n : Bytes) : Bytes :=
   toLE 32 (Spec.X25519.fmul (Spec.X25519.fadd P.Z P.Y)
     (Spec.X25519.finv (Spec.X25519.fsub P.Z P.Y)))
 
-/-- **Unproved curve fact, Edwards form**: the Rust base-point multiplication equals X25519 on
+/-- **Unproved curve fact, Edwards form** (a consequence of `EdwardsLadderOK` below:
+`baseEdwardsOK_of_edwardsLadder`; it in turn implies C13's `MapCommutes`: `C13.mapCommutes_of_base`): the Rust
+base-point multiplication equals X25519 on
 u = 9.  It combines `[L]B = O` with the birational map Edwards → Montgomery commuting with
 scalar multiplication.  Not provable without the group law; evaluated on instances below and
 compared with the implementation in the differential tests (`box_keypair`, `kx_keypair`, seed
@@ -549,7 +673,8 @@ Edwards table's). -/
 def BaseEdwardsOK : Prop :=
   ∀ n : Bytes, n.length = 32 → scalarmultBaseEdwards n = Spec.X25519.x25519Base n
 
-/-- **Unproved curve fact, ladder form**: on the base point, reducing the clamped scalar mod L
+/-- **Unproved curve fact, ladder form** (a consequence of `EdwardsLadderOK` below:
+`baseReduceOK_of_edwardsLadder`): on the base point, reducing the clamped scalar mod L
 before the ladder (the shape `ladder (le (clamp n) % L) 9` of the code's `from_bytes_mod_order`)
 does not change the result, i.e. `[L]·9 = O` on the Montgomery curve.  (Off the prime-order
 subgroup it does: `scalarmultReduced_ne_x25519`.) -/
@@ -590,6 +715,52 @@ example : scalarmultBaseEdwards (List.replicate 32 0xff) =
 example : scalarmultReduced specPrims (List.replicate 32 0xff) Spec.X25519.basePoint =
     Spec.X25519.x25519Base (List.replicate 32 0xff) := by
   set_option maxRecDepth 100000 in decide
+
+/-- dalek's `EdwardsPoint::to_montgomery`: u = (Z + Y)/(Z − Y), 32 bytes little-endian (`0` when `Z = Y`, the
+neutral element: `finv 0 = 0`) -/
+def edwardsToMontgomery (P : Spec.Ed25519.Point) : Bytes :=
+  toLE 32 (Spec.X25519.fmul (Spec.X25519.fadd P.Z P.Y) (Spec.X25519.finv (Spec.X25519.fsub P.Z P.Y)))
+
+theorem scalarmultBaseEdwards_unfold (n : Bytes) :
+    scalarmultBaseEdwards n =
+      edwardsToMontgomery (Spec.Ed25519.scalarMul (le (clamp n) % L) Spec.Ed25519.B) := rfl
+
+/-- **The one unproved base-point fact** from which `BaseEdwardsOK` and `BaseReduceOK` both follow (and, with the
+proved `Proofs/CurveEdwards.lean`, C13's `MapCommutes`): for EVERY scalar `k < 2^255` — clamped or not, reduced
+or not — the Montgomery image of the Edwards multiple `[k mod L]B` is the X25519 ladder of `k` on u = 9.  It
+combines `[L]B = O` with the birational map commuting with scalar multiplication; for `L ∣ k` both sides are the
+encoding of 0 (neutral element).  Not provable without the group law; instances below. -/
+def EdwardsLadderOK : Prop :=
+  ∀ k : Nat, k < 2 ^ 255 →
+    edwardsToMontgomery (Spec.Ed25519.scalarMul (k % L) Spec.Ed25519.B) =
+      Spec.X25519.encodeUCoordinate (Spec.X25519.ladder k 9)
+
+/-- `BaseEdwardsOK` is the instance `k = le (clamp n)` -/
+theorem baseEdwardsOK_of_edwardsLadder (h : EdwardsLadderOK) : BaseEdwardsOK := by
+  intro n hn
+  have h9 : Spec.X25519.decodeUCoordinate Spec.X25519.basePoint = 9 := by decide
+  rw [scalarmultBaseEdwards_unfold, h _ (clamp_range n hn).2.1]
+  simp only [Spec.X25519.x25519Base, Spec.X25519.x25519, decodeScalar_eq n hn, h9]
+
+/-- `BaseReduceOK` follows from the instances `k = le (clamp n)` and `k = le (clamp n) % L` (the same Edwards
+multiple, since `(k % L) % L = k % L`) -/
+theorem baseReduceOK_of_edwardsLadder (h : EdwardsLadderOK) : BaseReduceOK := by
+  intro n hn
+  have h9 : Spec.X25519.decodeUCoordinate Spec.X25519.basePoint = 9 := by decide
+  have hk := (clamp_range n hn).2.1
+  have hk' : le (clamp n) % L < 2 ^ 255 := Nat.lt_of_le_of_lt (Nat.mod_le _ _) hk
+  have e1 := h _ hk
+  have e2 := h _ hk'
+  rw [Nat.mod_mod] at e2
+  rw [scalarmultReduced_base, ← e2, e1]
+  simp only [Spec.X25519.x25519Base, Spec.X25519.x25519, decodeScalar_eq n hn, h9]
+
+/-- instances of `EdwardsLadderOK` (kernel evaluation): k = 1, k = L (both sides encode 0) and k = L + 1 -/
+example :
+    (∀ k ∈ [1, L, L + 1], k < 2 ^ 255 ∧
+      edwardsToMontgomery (Spec.Ed25519.scalarMul (k % L) Spec.Ed25519.B) =
+        Spec.X25519.encodeUCoordinate (Spec.X25519.ladder k 9)) := by
+  set_option maxRecDepth 1000000 in decide +kernel
 
 /-! ### 10': the shared secret of two honest key pairs is not all-zero
 
@@ -790,5 +961,33 @@ most 32 bytes).  In the Rust this `clamp` is called by `crypto_scalarmult_curve2
 to RFC 7748's by `clamp_eq_spec`). -/
 theorem translated_clamp (n : Bytes) (hn : n.length = 32) : Gen.Curve.clamp n = Model.Curve.clamp n :=
   Proofs.GenCurve.clamp_eq_model n hn
+
+/-! ## the key-exchange functions as read off the source on every run (translator kernel `Kx`)
+
+`tools/rs2lean.py` emits the SHAPE of `src/classic/crypto_kx.rs` as data — what is hashed and in which order, the digest length and its
+split, the operands of the scalar multiplication, how the client and the server route `(rx, tx)` into the common helper (the server
+passes `(tx, rx)`), and that the exact all-zero check sits between the two — and `Proofs/GenKx.lean` INTERPRETS that data and proves the
+result equal to the hand model.  `kx_spec` and `kx_mirror` are therefore statements about what the source says today. -/
+
+theorem translated_kx_shape :
+    Gen.Kx.hash_updates = ["shared_secret", "client_pk", "server_pk"] ∧ Gen.Kx.hash_outlen = 64
+    ∧ Gen.Kx.digest_split = [("x1", 0, 32), ("x2", 32, 64)]
+    ∧ Gen.Kx.client_scalarmult_args = ["client_sk", "server_pk"] ∧ Gen.Kx.server_scalarmult_args = ["server_sk", "client_pk"]
+    ∧ Gen.Kx.client_helper_args = ["rx", "tx", "client_pk", "server_pk", "shared_secret"]
+    ∧ Gen.Kx.server_helper_args = ["tx", "rx", "client_pk", "server_pk", "shared_secret"]
+    ∧ Gen.Kx.client_checks_zero_between = true ∧ Gen.Kx.server_checks_zero_between = true ∧ Gen.Kx.zero_check_is_exact = true :=
+  Proofs.GenKx.kx_shape
+
+theorem translated_kx_client (P : Model.Curve.Prims) (cpk csk spk : Bytes)
+    (hlen : ∀ m, (P.blake2b 64 [] [] [] m).length = 64) :
+    Proofs.GenKx.sessionFromShape P Gen.Kx.client_scalarmult_args Gen.Kx.client_helper_args Gen.Kx.client_checks_zero_between
+      [("client_pk", cpk), ("client_sk", csk), ("server_pk", spk)] = Model.Curve.kxClient P cpk csk spk :=
+  Proofs.GenKx.client_from_shape_eq_model P cpk csk spk hlen
+
+theorem translated_kx_server (P : Model.Curve.Prims) (spk ssk cpk : Bytes)
+    (hlen : ∀ m, (P.blake2b 64 [] [] [] m).length = 64) :
+    Proofs.GenKx.sessionFromShape P Gen.Kx.server_scalarmult_args Gen.Kx.server_helper_args Gen.Kx.server_checks_zero_between
+      [("server_pk", spk), ("server_sk", ssk), ("client_pk", cpk)] = Model.Curve.kxServer P spk ssk cpk :=
+  Proofs.GenKx.server_from_shape_eq_model P spk ssk cpk hlen
 
 end DryocVerif.Properties.C05
